@@ -54,6 +54,7 @@ type Harness struct {
 	NthCalls int
 
 	objs    map[int]interface{}
+	ptrNode map[interface{}]*model.Node
 	rtypes  map[string]reflect.Type
 	rootObj interface{}
 	hasAny  bool
@@ -61,6 +62,9 @@ type Harness struct {
 
 // Kinds lists the back-end kinds Build understands.
 var Kinds = []string{"iface", "any", "reflect", "mixed-any", "mixed-reflect"}
+
+// AllKinds adds the precedence back-end: reflection-capable structs with an AnyResolver installed.
+var AllKinds = []string{"iface", "any", "reflect", "mixed-any", "mixed-reflect", "any-over-reflect"}
 
 // ErrInjected is the base of every injected failure.
 var ErrInjected = errors.New("injected failure")
@@ -92,10 +96,21 @@ func Build(kind string, s *model.Schema, sdl string, g *model.Graph) (*Harness, 
 			}
 			return Reflect
 		}
+	case "any-over-reflect":
+		// objects are reflection-capable structs (and every third one an interface resolver),
+		// but an AnyResolver is installed: it must be preferred over reflection
+		h.Strat = func(n *model.Node) Strategy {
+			if n.ID%3 == 1 {
+				return Iface
+			}
+			return Reflect
+		}
+		h.hasAny = true
 	default:
 		return nil, fmt.Errorf("unknown back-end %s", kind)
 	}
-	needReflect := kind == "reflect" || kind == "mixed-reflect"
+	needReflect := kind == "reflect" || kind == "mixed-reflect" || kind == "any-over-reflect"
+	h.ptrNode = map[interface{}]*model.Node{}
 	if needReflect {
 		h.buildTypes()
 	}
@@ -222,6 +237,18 @@ func (h *Harness) conv(v interface{}, owner *model.Node, nth int) interface{} {
 			return nil
 		}
 		return h.obj(t)
+	case model.TypedNil:
+		switch h.Strat(&model.Node{ID: owner.ID + 1}) {
+		case Iface:
+			return (*ifNode)(nil)
+		case Any:
+			return (*anyNode)(nil)
+		default:
+			if rt := h.rtypes[t.Type]; rt != nil {
+				return reflect.Zero(reflect.PtrTo(rt)).Interface()
+			}
+			return (*ifNode)(nil)
+		}
 	case model.VList:
 		items := make([]interface{}, len(t))
 		for i, e := range t {
@@ -303,6 +330,15 @@ func (a *anyRes) Resolve(obj interface{}, field *ggql.Field, args map[string]int
 	switch t := obj.(type) {
 	case *anyNode:
 		return h.resolve(t.n, Any, field, args)
+	case *ifNode:
+		// a Resolver object handed to the AnyResolver: recorded with strategy Any so the precedence monitor sees it
+		return h.resolve(t.n, Any, field, args)
+	}
+	h.mu.Lock()
+	n := h.ptrNode[obj]
+	h.mu.Unlock()
+	if n != nil {
+		return h.resolve(n, Any, field, args)
 	}
 	return nil, fmt.Errorf("harness: AnyResolver got a %T for field %s", obj, field.Name)
 }
@@ -406,6 +442,7 @@ func (h *Harness) reflectObj(n *model.Node) interface{} {
 		r := &ReflRoot{}
 		h.mu.Lock()
 		h.objs[n.ID] = r
+		h.ptrNode[r] = n
 		h.mu.Unlock()
 		owner := &model.Node{ID: 1}
 		r.Query = h.conv(n.F["query"], owner, -1)
@@ -425,6 +462,7 @@ func (h *Harness) reflectObj(n *model.Node) interface{} {
 		return prev
 	}
 	h.objs[n.ID] = o
+	h.ptrNode[o] = n
 	h.mu.Unlock()
 	td := h.S.Type(n.Type)
 	for _, f := range td.Fields {
